@@ -697,6 +697,7 @@ class Gen:
             import copy
             orig = copy.deepcopy(fd)
             orig.opts["ext"] = True
+            orig.opts["twin_orig"] = True
             self.emit_fn(orig)
             tw = copy.deepcopy(fd)
             tw._is_twin = True
@@ -708,6 +709,13 @@ class Gen:
         rec = {"kind": "fn", "name": qual_name, "source": srcfile, "src_line": src_line, "tags": fd.tags,
                "contract_only": contract_only, "clauses": [], "notes": fd.notes,
                "src_fn": fd.qual, "module": self.cur_module}
+        if "ext" in fd.opts and "twin_orig" not in fd.opts:
+            # an ASSUMED contract is an assumption about THIS text: fingerprint of the function's tokens (comments and
+            # white space ignored), compared by bin/check with spec/assumed.lock.json
+            import hashlib
+            ftoks = [t.text for t in tokenize(src[it.hdr_start:it.body_close + 1]) if t.kind not in ("ws", "comment")]
+            rec["assumed"] = True
+            rec["fingerprint"] = hashlib.sha256(" ".join(ftoks).encode()).hexdigest()[:16]
         for a in fd.opts.get("attrs", []):
             if getattr(fd, "_is_twin", False) and "rlimit" in a:
                 continue  # the vacuity twin keeps the small default budget
